@@ -82,7 +82,17 @@ TraceFromMetrics ==
           <<"C20.sample_splits_n_scores", e.exc # "" \/
                (e.sample_total = e.sample_n /\ e.sample_sc = e.sc)>>}))
 
-Next == TraceBernoulli \/ TraceCorrelated \/ TraceNormal \/ TraceFromMetrics \/ TraceBernoulliNear
+(* rates 2^-k for both classes, the same support s: n = 2 * s * 2^k exactly (far beyond 64 bits for *)
+(* k >= 63), half of them positives                                                               *)
+TraceFromMetricsPow2 ==
+  /\ IsEvent("from_metrics_pow2")
+  /\ LET e == Log[l] IN
+     Report(e, Failing({
+          <<"C20.raised", e.exc = "">>,
+          <<"C20.from_metrics_sample_sizes", e.exc # "" \/
+               (e.exact_multiple /\ e.quotient_is_power_of_two /\ e.exponent = e.k /\ e.ppos_half)>>}))
+
+Next == TraceFromMetricsPow2 \/ TraceBernoulli \/ TraceCorrelated \/ TraceNormal \/ TraceFromMetrics \/ TraceBernoulliNear
 Spec == Init /\ [][Next]_vars
 AllConsumed == TLCGet("stats").diameter - 1 = Len(Log)
 =============================================================================
